@@ -130,16 +130,18 @@ fn parent_per_case(prop: &str) {
             .stderr(Stdio::null())
             .spawn()
             .unwrap();
-        {
-            let mut cin = child.stdin.take().unwrap();
-            let text = case.join("\n") + "\n";
-            let _ = cin.write_all(text.as_bytes());
-        }
+        // the answers are drained while the case is still being written: a case longer than the pipe buffers would otherwise block
+        // the child on its output and this process on the child's input, for ever and before the time limit starts to run
         let mut cout = child.stdout.take().unwrap();
         let reader = std::thread::spawn(move || {
             let mut s = String::new();
             let _ = std::io::Read::read_to_string(&mut cout, &mut s);
             s
+        });
+        let mut cin = child.stdin.take().unwrap();
+        let text = case.join("\n") + "\n";
+        let writer = std::thread::spawn(move || {
+            let _ = cin.write_all(text.as_bytes());
         });
         let start = std::time::Instant::now();
         let mut verdict = "";
@@ -162,6 +164,7 @@ fn parent_per_case(prop: &str) {
                 }
             }
         }
+        let _ = writer.join();
         let text = reader.join().unwrap();
         let got: Vec<&str> = text.lines().collect();
         for l in &got {
